@@ -227,7 +227,8 @@ def pipeline_cases(draw):
         pipe["refinement.2"] = {"refinement_method": draw(st.sampled_from(["vfit", "quadratic"]))}
     dmin = draw(st.integers(-4, 1))
     dmax = dmin + draw(st.integers(1, 4))
-    return {"pair": pair, "pipeline": [[k, v] for k, v in pipe.items()], "disp": [dmin, dmax]}
+    steps = [[k, v] for k, v in pipe.items()]
+    return {"pair": pair, "pipeline": steps, "disp": gen.clamp_interval([dmin, dmax], pair["W"], steps)}
 
 
 def pipeline_body(ctx: Ctx, p: dict) -> None:
